@@ -76,8 +76,20 @@ def run(tier, seed):
     n = 500 if tier == "quick" else 8000
     ups = [("stream", b"20 text/plain; charset=iso-8859-1\r\ncaf\xe9", None), ("stream", b"20 text/plain\nX: 1\r\nbody", None),
            ("stream", b"+20 text/plain\r\nbody", None), ("stream", b"31 gemini://other/\r\n", None), ("connfail",), ("timeout",)]
+    # header-length boundary with the read boundary at every position around the CRLF (incl. between CR and LF)
+    for mlen in (1023, 1024, 1025):
+        data = b"20 " + b"m" * mlen + b"\r\nBODY"
+        for cut in range(len(data) - 8, len(data)):
+            ups.append(("stream", data, None, [cut]))
+    for data in (b"20 text/plain\r\nhello", b"51 gone\r\n"):
+        for cut in range(1, len(data)):
+            ups.append(("stream", data, None, [cut]))
     ups += [gen_upstream(rng) for _ in range(n)]
+    forced = {}
     def chunker(data):
+        if id(data) in forced:
+            pts = [0] + forced[id(data)] + [len(data)]
+            return [data[a:b] for a, b in zip(pts, pts[1:])]
         if not data: return []
         k = rng.choice([0, 0, 1, 2, 4])
         cuts = sorted(set(rng.randrange(1, len(data)) for _ in range(k))) if len(data) > 1 else []
@@ -86,7 +98,12 @@ def run(tier, seed):
     async def go():
         loop = asyncio.get_running_loop()
         h = ProxyHandler("gemini://up.example:1965", prefix="/", strip_prefix=False, timeout=0.15)
-        return [await relay_once(loop, h, up, chunker) for up in ups]
+        out = []
+        for up in ups:
+            if len(up) > 3: forced[id(up[1])] = up[3]
+            out.append(await relay_once(loop, h, up, chunker))
+            forced.clear()
+        return out
     impl = asyncio.run(go())
     def enc_up(up):
         if up[0] == "stream": return ["stream", up[1], [up[2]] if up[2] else []]
